@@ -309,8 +309,7 @@ def replay(path):
     import json
     d = json.load(open(path))
     w = d['witness']
-    a = run_history(w['group'], tuple(w['history']))
-    b = run_history(w['group'], tuple(w['history']))
+    a, b = report.twice(run_history, w['group'], tuple(w['history']))
     if repr(a) != repr(b):
         print('HARNESS-ERROR: replay is not deterministic')
         return 2
